@@ -120,7 +120,7 @@ Section Explicit.
     rewrite index_in_seq by lia. rewrite seq_length, map_length, seq_length.
     replace r with (r / ppn * ppn + r mod ppn) at 3 by lia.
     rewrite index_in_col by exact Hk.
-    f_equal; [f_equal; [f_equal|]|]; lia.
+    replace (r - r / ppn * ppn) with (r mod ppn) by lia. reflexivity.
   Qed.
 
   (* complete grid: every cell (node k, offset j) holds exactly one rank *)
@@ -138,7 +138,7 @@ Section Explicit.
     (In q (intra (attach_explicit P ppn r)) <-> q / ppn = r / ppn) /\
     (In q (inter (attach_explicit P ppn r)) <-> q mod ppn = r mod ppn).
   Proof.
-    intros Hr Hq. unfold attach_explicit, members. simpl. rewrite !filter_In, !in_seq, !Nat.eqb_eq. split; split; intros; try tauto; split; [lia|assumption].
+    intros Hr Hq. unfold attach_explicit, members. simpl. rewrite !filter_In, !in_seq, !Nat.eqb_eq. split; split; intros H; try tauto; (split; [lia|exact H]).
   Qed.
 
   (* the member lists are in the order MPI_Comm_split prescribes for the keys used (offset resp. node) *)
@@ -202,16 +202,19 @@ Section Classes.
   Lemma member_self r : r < P -> In r (members P nd (nd r)).
   Proof. intros H. unfold members. apply filter_In. split; [apply in_seq; lia|apply Nat.eqb_refl]. Qed.
 
+  Lemma index_in_app_notin r l t : (forall x, In x l -> x <> r) -> index_in r (l ++ r :: t) = length l.
+  Proof.
+    induction l as [|x l IH]; intros H; simpl; [rewrite Nat.eqb_refl; reflexivity|].
+    destruct (x =? r) eqn:E; [apply Nat.eqb_eq in E; exfalso; apply (H x); [left; reflexivity|exact E]|].
+    f_equal. apply IH. intros y Hy. apply H. right. exact Hy.
+  Qed.
+
   Lemma index_in_filter_seq (f : nat -> bool) r n : r < n -> f r = true ->
     index_in r (filter f (seq 0 n)) = length (filter f (seq 0 r)).
   Proof.
-    intros Hr Hf. replace n with (r + (1 + (n - r - 1))) by lia. rewrite !seq_app, !filter_app. simpl. rewrite Hf.
-    generalize (filter f (seq 0 r)). intros l.
-    assert (N : forall l, (forall x, In x l -> x <> r) -> forall t, index_in r (l ++ r :: t) = length l).
-    { induction l0 as [|x l0 IH]; intros H t; simpl; [rewrite Nat.eqb_refl; reflexivity|].
-      destruct (x =? r) eqn:E; [apply Nat.eqb_eq in E; exfalso; apply (H x); [left; reflexivity|exact E]|].
-      f_equal. apply IH. intros y Hy. apply H. right. exact Hy. }
-    clear l. apply N. intros x Hx. apply filter_In in Hx. destruct Hx as [Hx _]. apply in_seq in Hx. lia.
+    intros Hr Hf. replace n with (r + (1 + (n - r - 1))) by lia. rewrite !seq_app, !filter_app.
+    change (seq (0 + r) 1) with [r]. cbn [filter]. rewrite Hf. cbn [app].
+    apply index_in_app_notin. intros x Hx. apply filter_In in Hx. destruct Hx as [Hx _]. apply in_seq in Hx. lia.
   Qed.
 
   Lemma intrarank_count r : r < P -> intrarank P nd r = length (filter (fun q => nd q =? nd r) (seq 0 r)).
